@@ -99,7 +99,7 @@ class C10(Prop):
             if ks:
                 sub = lang.to_jsonable(rng.choice(ks))
         more = []
-        for _ in range(rng.choice([0, 0, 1, 1, 2])):
+        for _ in range(rng.choice([0, 0, 1, 1, 2, 2, 2, 9] if rng.random() < 0.5 else [0, 0, 1, 1, 2])):
             k = rng.randint(1, 12)
             more.append({'data': lang.gen_trace(rng, names, k), 't': jitter_stamps(rng, k, rng.choice([0.0, 50.0]))})
         self._more = more
